@@ -198,6 +198,45 @@ fn check_msg(lm: &LMsg, k: &Keyed, near: &[(KeySpec, HMACKey)], walk_faults: boo
         }
         rep.sym("mac-patterns");
     }
+    // (iii-d) the same decoder object sees the same buffers again and again (retransmissions): the untampered message, then a
+    // tampered copy four times in a row, then both alternating - every presentation of the tampered copy is refused, every
+    // presentation of the untampered one accepted (messages selected by a hash of their bytes, one in 4)
+    if crate::util::hash64(&enc) % 4 == 1 {
+        for t in &macs {
+            for pos in [20usize.min(t.off), (20 + t.off) / 2, t.off + 4 + t.value.len() - 1] {
+                if pos == 2 || pos == 3 {
+                    continue;
+                }
+                let mut m = enc.clone();
+                m[pos] ^= 0x04;
+                let seq: [bool; 9] = [false, true, true, true, true, false, true, false, true]; // true = tampered
+                for (n, tampered) in seq.iter().enumerate() {
+                    rep.eval();
+                    let bytes = if *tampered { &m } else { &enc };
+                    match (accepted_each(bytes, t.ty, k.subject, &plain, &validating), *tampered) {
+                        (Ok((false, false)), true) | (Ok((true, true)), false) => {}
+                        (Ok(_), true) => {
+                            rep.violate(
+                                format!("tampered-message-accepted/{}/presented-again-to-the-same-decoder", kind_name(t.ty)),
+                                format!("presentation {} of a copy with bit 2 of byte {} flipped", n + 1, pos),
+                                json!({"kind": "bytes", "original": hex(&enc), "tampered": hex(&m), "key": k.spec.show(), "sequence": "original, tampered x4, original, tampered, original, tampered - all on one validating decoder object"}),
+                            );
+                            break;
+                        }
+                        (Ok(_), false) => {
+                            rep.violate(format!("untampered-message-rejected/{}/presented-again-to-the-same-decoder", kind_name(t.ty)), format!("presentation {}", n + 1), replay());
+                            break;
+                        }
+                        (Err(pn), _) => {
+                            rep.violate(format!("validation-panics/{}", crate::util::panic_site(&pn)), pn, replay());
+                            break;
+                        }
+                    }
+                }
+            }
+        }
+        rep.sym("re-presentations");
+    }
     // (iii-b) every single-bit fault in the protected prefix (except header bytes 2-3), in the attribute's own
     // header and in the MAC
     let mut m = enc.clone();
@@ -469,9 +508,9 @@ pub fn run(ctx: &RunCtx) -> i32 {
         rep,
         Finish {
             level: "fault_enumeration",
-            rule: format!("messages with 0..=2 body attributes over the {}-entry menu (values <=64 bytes; long values as singles) x 6 legal tails containing MI and/or SHA256 x {} keys (short-term incl. non-ASCII, long-term MD5 and SHA-256); for each: wire bytes == reference (independent HMAC over the RFC input under the independently derived key), every integrity attribute accepted under the right key whatever tail follows, rejected under every key differing in one character of user / realm / password (or algorithm), and rejected after every single-bit fault in the protected prefix (except header bytes 2-3), the attribute's own header and the MAC (pairs only under the first 3 keys; quick tier: pairs walk faults under one rotating tail). Plus one DATA blob of every length 0..=300 x 3 tails (fault walks for every length in the thorough tier, <=140 in the quick tier) and the deep messages of C01 (offsets around 256..4096 / 32768, long runs, repeats, rotations, quads) x 2 tails under a short-term and a long-term SHA-256 key, without fault walks; the offset family (MI / SHA256 / MI+SHA256+FINGERPRINT behind a filler at every 4-aligned body offset 0..=4200 (thorough 16,400), around multiples of 4096 (1024), every offset 65,300 up to the 65,532-byte maximum). For one walked message in 8 the MAC is also replaced by every value of a pattern family that careless comparisons accept (the same mask on two bytes a multiple of four apart x 3 masks, +1/-1 on neighbouring bytes, swapped / rotated / reversed words, inverted, right only in a prefix or suffix, all zero). Decoy values: a DATA blob whose last 48 bytes imitate the headers of MESSAGE-INTEGRITY / MESSAGE-INTEGRITY-SHA256 / FINGERPRINT at every word, singly and in every pair, x 6 tails. For one message in 16 the untampered and a tampered copy are also decoded by every construction route of the four validating decoder configurations (builder calls in every order, a repeated call, clones of decoder and context) and must get the canonical decoder's verdict. Every message is also re-issued: clones of the attributes of the encoded message in a message with another transaction id must encode to that message's reference bytes. Acceptance = validating decoder returns the attribute OR get_input_text+validate says true. Non-trivial = message that passed all of these; key objects that come and go (a message protected under one key, message and key dropped, another key of the same length created at once on the same thread - five key pairs, both orders, five tails, three rounds): the first message is refused under the second key by both routes and a message encoded under the second key carries its RFC HMAC", menu_v.len(), keys.len()),
+            rule: format!("messages with 0..=2 body attributes over the {}-entry menu (values <=64 bytes; long values as singles) x 6 legal tails containing MI and/or SHA256 x {} keys (short-term incl. non-ASCII, long-term MD5 and SHA-256); for each: wire bytes == reference (independent HMAC over the RFC input under the independently derived key), every integrity attribute accepted under the right key whatever tail follows, rejected under every key differing in one character of user / realm / password (or algorithm), and rejected after every single-bit fault in the protected prefix (except header bytes 2-3), the attribute's own header and the MAC (pairs only under the first 3 keys; quick tier: pairs walk faults under one rotating tail). Plus one DATA blob of every length 0..=300 x 3 tails (fault walks for every length in the thorough tier, <=140 in the quick tier) and the deep messages of C01 (offsets around 256..4096 / 32768, long runs, repeats, rotations, quads) x 2 tails under a short-term and a long-term SHA-256 key, without fault walks; the offset family (MI / SHA256 / MI+SHA256+FINGERPRINT behind a filler at every 4-aligned body offset 0..=4200 (thorough 16,400), around multiples of 4096 (1024), every offset 65,300 up to the 65,532-byte maximum). For one walked message in 8 the MAC is also replaced by every value of a pattern family that careless comparisons accept (the same mask on two bytes a multiple of four apart x 3 masks, +1/-1 on neighbouring bytes, swapped / rotated / reversed words, inverted, right only in a prefix or suffix, all zero). Decoy values: a DATA blob whose last 48 bytes imitate the headers of MESSAGE-INTEGRITY / MESSAGE-INTEGRITY-SHA256 / FINGERPRINT at every word, singly and in every pair, x 6 tails. For one message in 16 the untampered and a tampered copy are also decoded by every construction route of the four validating decoder configurations (builder calls in every order, a repeated call, clones of decoder and context) and must get the canonical decoder's verdict. Every message is also re-issued: clones of the attributes of the encoded message in a message with another transaction id must encode to that message's reference bytes. Acceptance = validating decoder returns the attribute OR get_input_text+validate says true. Non-trivial = message that passed all of these; key objects that come and go (a message protected under one key, message and key dropped, another key of the same length created at once on the same thread - five key pairs, both orders, five tails, three rounds): the first message is refused under the second key by both routes and a message encoded under the second key carries its RFC HMAC; retransmissions: one validating decoder object is shown the untampered message and a tampered copy nine times in a fixed order (tampered four times in a row, then alternating), every presentation judged on its own", menu_v.len(), keys.len()),
             assumptions: vec!["R-strings table for the non-ASCII passwords".into()],
-            required_symbols: vec!["key-derivation", "accepted-untampered", "rejected-wrong-key", "fault-walks", "long-values", "prefix-length-sweep", "deep-messages", "offset-family", "decoder-construction-routes", "decoy-values", "mac-patterns", "reissued-with-cloned-attributes", "rejected-under-a-later-key", "later-key-macs-are-its-own"],
+            required_symbols: vec!["key-derivation", "accepted-untampered", "rejected-wrong-key", "fault-walks", "long-values", "prefix-length-sweep", "deep-messages", "offset-family", "decoder-construction-routes", "decoy-values", "mac-patterns", "reissued-with-cloned-attributes", "rejected-under-a-later-key", "later-key-macs-are-its-own", "re-presentations"],
             min_outcomes: 2,
             exhaustive: true,
             bounds: json!({"menu": menu_v.len(), "keys": keys.len(), "tails": 6}),
